@@ -132,7 +132,7 @@ Init ==
    /\ M!MInit
    /\ stk = <<>> /\ lastx = C!NoLast /\ verd = <<>> /\ cnt = C!Cnt0
    /\ cs = [id |-> 1, g |-> cfg.g, w |-> w, A |-> cfg.A, M |-> cfg.M, af |-> cfg.af, cf |-> cfg.cf, trk |-> 0, eol |-> 3,
-            ib |-> 0, il |-> 1, ic |-> 1, cls |-> cfg.cls, xt |-> 0, bmax |-> 0, bchunk |-> 0, sched |-> 0]
+            ib |-> 0, il |-> 1, ic |-> 1, cls |-> cfg.cls, xt |-> 0, bmax |-> 0, bchunk |-> 0, sched |-> 0, tl |-> <<>>, bt |-> <<>>]
    /\ n = 1 /\ ended = FALSE
 
 EndEvent ==
